@@ -8,7 +8,7 @@ from spec import commb_fields as CF
 from spec import frames as F
 
 LEVEL = "exploration"
-RULE = ("for every field row (29 rows of BDS 4,0 4,4 4,5 5,0 5,3 6,0): all raw values (<= 2^12) x status x sign under "
+RULE = ("for every field row (31 rows of BDS 4,0 4,4 4,5 5,0 5,3 6,0 incl. the deprecated alt40mcp/alt40fms aliases): all raw values (<= 2^12) x status x sign under "
         "backgrounds {zeros, every other MB bit set, 0x55/0xAA, seeded} in DF20 and DF21 carriers, plus bg-1 (every "
         "other MB, header and parity bit) on a 16-value subset (all values in thorough); wind44/temp44 tuples, cap17 all "
         "24 single capability bits + patterns, ovc10; identity of the pyModeS.commb re-exports; distinct = (field, "
@@ -178,8 +178,12 @@ def w_misc(arg):
             k += 1
             mb = (bg & ~(1 << 41) & ONES) | (bit << 41)
             do("ovc10", (bit, carrier(mb, k)))
+    covered = set(CF.BY_NAME) | {"wind44", "temp44", "cap17", "ovc10", "cs20"}
     for name in pms.commb.__all__:
         do("identity", (name,))
+        acc.n += 1
+        if not name.startswith("is") and name not in covered:
+            acc.bad("oracle:exported_decoder_without_reference_row:%s" % name, {"kind": "misc", "sub": "identity", "p": [name]})
     for name, msg, exp in repo_vectors():
         do("vector", (name, msg, exp))
         # and the reference row must agree with the repository vector (guards the oracle itself)
